@@ -66,16 +66,21 @@ func (m *Mutex) Unlock() {
 	w.event(w.cur, KUnlock, o, true, 0)
 }
 
+// RWMutex models sync.RWMutex including its writer preference: Lock is two steps - the writer
+// announces itself (from then on RLock blocks), then waits until the readers that were inside
+// have left. A goroutine that read-locks recursively can therefore deadlock with a writer that
+// arrives in between, exactly as with the real thing.
 type RWMutex struct {
-	w  bool
-	r  int
+	w   bool
+	ann bool // a writer has announced itself or holds the lock
+	r   int
 	o  *obj
 	wd *World
 }
 
 func (m *RWMutex) obj(w *World) *obj {
 	if m.wd != w {
-		m.wd, m.o, m.w, m.r = w, w.newObj(w.cur), false, 0
+		m.wd, m.o, m.w, m.r, m.ann = w, w.newObj(w.cur), false, 0, false
 	}
 	return m.o
 }
@@ -87,8 +92,14 @@ func (m *RWMutex) Lock() {
 	}
 	o := m.obj(w)
 	t := w.cur
-	t.p = pend{kind: KLock, rw: m}
+	t.p = pend{kind: KLockAnn, rw: m}
 	w.point()
+	m.ann = true
+	w.event(t, KLockAnn, o, true, 0)
+	if m.r > 0 { // readers inside: wait for them (a second scheduling point only when it can matter)
+		t.p = pend{kind: KLock, rw: m}
+		w.point()
+	}
 	m.w = true
 	w.event(t, KLock, o, true, 0)
 }
@@ -102,7 +113,7 @@ func (m *RWMutex) Unlock() {
 	if !m.w {
 		panic("vsched: unlock of unlocked rwmutex")
 	}
-	m.w = false
+	m.w, m.ann = false, false
 	w.event(w.cur, KUnlock, o, true, 0)
 }
 
